@@ -57,8 +57,10 @@ def showContains : ReadResult Nat → String
 def showEntry (r : Rec) : String :=
   s!"{r.ts},{if r.del then 1 else 0},{showMeta r.mt},{showData r.data}"
 
-def showList (l : List Rec) : String :=
-  "list " ++ ";".intercalate (l.map showEntry)
+def showItems (l : List String) : String :=
+  if l.isEmpty then "list" else "list " ++ ";".intercalate l
+
+def showList (l : List Rec) : String := showItems (l.map showEntry)
 
 def showErr : ErrKind → String
   | .activeBlobDoesntExist => "err ActiveBlobDoesntExist"
@@ -129,6 +131,11 @@ def step (s : Store) (line : String) : Store × String :=
     | .error e => (s, showErr e)
   | ["settle"] => (s.apply .settle, "ok")
   | ["counts"] => (s, showCounts s)
+  | ["states"] =>
+    (s, "#states" ++ String.join (s.blobs.map fun b =>
+      s!" {b.id}:{if s.active == some b then "a" else "c"}:{b.count}"))
+  | ["res"] =>
+    (s, "#res" ++ String.join (s.blobs.map fun b => s!" {b.id}:{if b.onDisk then "d" else "m"}"))
   | ["restart"] => (s.apply (.restart false), "ok")
   | ["restart", "lazy"] => (s.apply (.restart true), "ok")
   | _ => (s, "bad-op")
